@@ -113,6 +113,31 @@ Proof.
 move=> W; rewrite (bareiss_det q_prime W); split=> [[E]|->]; last by rewrite (F2Z_0 q_prime).
 by rewrite -(Z2F_F2Z q_prime (\det _)) E Z2F_0.
 Qed.
+
+(** The singular case, exactly: the determinant comes back as the VALUE 0, and the only failure of [matrix_inverse]
+    is the [unwrap] of [Scalar::invert] on that 0 -- never an arithmetic failure inside the elimination. *)
+Lemma inverse_singular n m : wf_mat q n m -> bareiss q m n = Val 0%Z ->
+  matrix_inverse q m n = Panic P_UNWRAP_INV.
+Proof. by move=> W E; rewrite /matrix_inverse E /expect_det /obind zq_invert_zero. Qed.
+
+(** The result is THE inverse: every well-shaped one-sided inverse of m equals the matrix returned. *)
+Lemma inverse_unique n m m' x : (0 < n)%coq_nat -> wf_mat q n m -> wf_mat q n m' -> wf_mat q n x ->
+  mat_mul q m' m = mat_id n -> mat_mul q m m' = mat_id n ->
+  (mat_mul q x m = mat_id n \/ mat_mul q m x = mat_id n) -> x = m'.
+Proof.
+move=> Hn W W' Wx L R H. apply: (mxof_inj Wx W').
+have [_ Eid] := mxof_mat_id n.
+have [_ EL] := mxof_mat_mul Hn W' W. have [_ ER] := mxof_mat_mul Hn W W'.
+have L' : mxof q n m' *m mxof q n m = 1%:M by rewrite -EL L Eid.
+have R' : mxof q n m *m mxof q n m' = 1%:M by rewrite -ER R Eid.
+case: H => H.
+- have [_ EX] := mxof_mat_mul Hn Wx W.
+  have X' : mxof q n x *m mxof q n m = 1%:M by rewrite -EX H Eid.
+  by rewrite -[LHS]mulmx1 -R' mulmxA X' mul1mx.
+- have [_ EX] := mxof_mat_mul Hn W Wx.
+  have X' : mxof q n m *m mxof q n x = 1%:M by rewrite -EX H Eid.
+  by rewrite -[LHS]mul1mx -L' -mulmxA X' mulmx1.
+Qed.
 End ListForm.
 
 Lemma det_mx22 (R : comRingType) (A : 'M[R]_2) : \det A = A 0 0 * A 1 1 - A 0 1 * A 1 0.
